@@ -146,6 +146,38 @@ func main() {
 					return false
 				})
 			}
+			// third rewrite, package cache only: a scheduling point in front of
+			// every `x.mutex.Lock()` of the sender's file cache, for the same
+			// reason (a check made before the lock is taken can then be
+			// overtaken by the scanner or the validator)
+			if strings.HasSuffix(p.PkgPath, "/cache") {
+				ast.Inspect(f, func(n ast.Node) bool {
+					es, ok := n.(*ast.ExprStmt)
+					if !ok {
+						return true
+					}
+					call, ok := es.X.(*ast.CallExpr)
+					if !ok || len(call.Args) != 0 {
+						return true
+					}
+					sel, ok := call.Fun.(*ast.SelectorExpr)
+					if !ok || sel.Sel.Name != "Lock" {
+						return true
+					}
+					inner, ok := sel.X.(*ast.SelectorExpr)
+					if !ok || inner.Sel.Name != "mutex" {
+						return true
+					}
+					recv, ok := inner.X.(*ast.Ident)
+					if !ok {
+						return true
+					}
+					edits = append(edits, edit{p.Fset.Position(es.Pos()).Offset, "fileutil.VerifPoint(\"cache.lock\", " + recv.Name + ".path); "})
+					nLock++
+					fmt.Fprintf(os.Stderr, "maporder: lock site %s\n", strings.TrimPrefix(p.Fset.Position(es.Pos()).String(), repo+"/"))
+					return true
+				})
+			}
 			if len(edits) == 0 {
 				continue
 			}
